@@ -30,6 +30,11 @@ func init() {
 		"vSetOpt":     inVSetOpt,
 		"vSymbolic":   func(ex *Exec, fr *frame, args []Value) Value { return ex.B.True },
 		"vPendingGo":  func(ex *Exec, fr *frame, args []Value) Value { return ex.i64(int64(len(ex.pending))) },
+		"vNow":        func(ex *Exec, fr *frame, args []Value) Value { return ex.timeNow() },
+		"vAfter":      func(ex *Exec, fr *frame, args []Value) Value { return models["time.After"](ex, fr, args) },
+		"vSince":      func(ex *Exec, fr *frame, args []Value) Value { return models["time.Since"](ex, fr, args) },
+		"vMark":       func(ex *Exec, fr *frame, args []Value) Value { ex.logEvent("mark:"+concreteName(ex, args[0]), nil); return nil },
+		"vEventPos":   inVEventPos,
 		"vEventCount": inVEventCount,
 		"vEventInt":   inVEventInt,
 		"vLockFree":   inVLockFree,
@@ -170,4 +175,18 @@ func inVLockFree(ex *Exec, fr *frame, args []Value) Value {
 	p := args[0].(*Ptr)
 	g := ex.mutexGhost(p)
 	return ex.B.Bool(!g.writer && g.readers == 0)
+}
+
+func inVEventPos(ex *Exec, fr *frame, args []Value) Value {
+	kind := concreteName(ex, args[0])
+	k := ex.concreteInt(fr, args[1], "event index")
+	for p, e := range ex.gevents {
+		if e.kind == kind {
+			if k == 0 {
+				return ex.i64(int64(p))
+			}
+			k--
+		}
+	}
+	return ex.i64(-1)
 }
